@@ -92,6 +92,8 @@ def standard_lattice(seed, quick):
         {"model": "G3"},
         {"model": "G2hole"},
         {"model": "G2cut"},
+        {"model": "G2step"},
+        {"model": "G2step", "resume": "every", "kwargs": {"nlive": 10, "poolsize": 10}},
         {"kwargs": {"latent_prior": "gaussian", "constant_volume_mode": False}},
         {"kwargs": {"latent_prior": "uniform_nball"}},
         {"kwargs": {"latent_prior": "flow", "constant_volume_mode": False}},
@@ -454,6 +456,9 @@ def ins_lattice(seed, quick, resume_subsets=True):
         assigns.append({"model": "G3"})
         assigns.append({"model": "G2hole"})
         assigns.append({"model": "G2cut"})
+        assigns.append({"model": "G2step"})
+        assigns.append({"model": "G2step", "strict_threshold": True, "draw_constant": False})
+        assigns.append({"model": "G2step", "replace_all": True, "threshold_method": "quantile"})
         assigns.append({"model": "G2cut", "draw_constant": False, "reparameterisation": None})
         assigns.append({"model": "G2hole", "draw_iid_live": False, "strict_threshold": True})
         assigns.append({"min_remove": 5})
